@@ -77,6 +77,37 @@ def absorb(ctx, R, what, cases):
         raise Inconclusive("%s: %s; e.g. %s" % (what, R["inconclusive"], (R.get("unreplayable") or [""])[0]))
 
 
+def selftest(ctx, trace):
+    """The trace validation must be able to say no: turn one recorded denial into an execution."""
+    lines = []
+    hit = None
+    with open(trace) as f:
+        for line in f:
+            e = json.loads(line)
+            if hit is None and e.get("ev") == "Cmd" and e["code"] in ("E_AUTH_FIRST", "E_UNAUTHORIZED") \
+                    and e["c"]["op"] in ("PUB", "DPUB"):
+                e.update(frame="response", code="OK", closed=False, topics=[e["c"]["t"]],
+                         enq=dict(e["enq"], **{e["c"]["t"]: e["enq"][e["c"]["t"]] + 1}))
+                hit = len(lines)
+            lines.append(json.dumps(e))
+            if hit is not None and len(lines) > hit + 3:
+                break
+            if hit is None and len(lines) > 60000:
+                break
+    if hit is None:
+        ctx.notes["selftest"] = "no denial among the first recorded steps to corrupt"
+        return
+    start = max(i for i in range(hit + 1) if '"Reset"' in lines[i])
+    bad = os.path.join(ctx.scratch, "corrupt.ndjson")
+    with open(bad, "w") as f:
+        f.write("\n".join(lines[start:]) + "\n")
+    r = ctx.tlc("NsqdPolicyTrace", "NsqdPolicyTrace.cfg", workers=1, timeout=600, jvm=["-Xss512m"],
+                files={bad: "trace.ndjson"}, record=False, label="selftest")
+    if r.ok or not (r.violated or "TRACE_REJECTED" in r.out):
+        raise Inconclusive("self-test: a trace in which a denied publish was executed is accepted by NsqdPolicyTrace")
+    ctx.notes["selftest"] = "corrupted trace (denied publish turned into an execution) rejected: %s" % (r.violated or "postcondition")
+
+
 def run(ctx):
     quick = ctx.quick
     cases = set()
@@ -145,6 +176,8 @@ def run(ctx):
                        key="trace:PropertyLevel")
     ctx.validate_trace("NsqdPolicyTrace", "NsqdPolicyTraceExact.cfg", trace, ntr, "policy-exact", timeout=3000,
                        level="shape")
+
+    selftest(ctx, trace)
 
     ctx.cov["distinct_nontrivial"] = len(cases)
     ctx.cov["rule"] = ("evaluations = commands / HTTP requests executed against real nsqd daemons (replayed TLC behaviours + "
